@@ -35,6 +35,18 @@ def run(tier, seed):
                 for dg in (2 - par if par else 2, 4 - par if par else 4):
                     a_ = G.sample_args(rng, name, cb, tier, degree=(1 if (par and dg == 1) else dg))
                     small.append(a_)
+            if G.REG[name][3] and cb:
+                # the node count left to the library (its default is 20) at degrees at and beyond it, and an explicit count at or
+                # below the degree: whatever such a fit is worth, the options must not change it
+                par = G.REG[name][2]
+                for dg in (20, 24, 30):
+                    a_ = G.sample_args(rng, name, cb, tier, degree=dg + par)
+                    a_.pop("cheb_samples", None)
+                    small.append(a_)
+                a_ = G.sample_args(rng, name, cb, tier, degree=12 + par)
+                a_["cheb_samples"] = 12 + par
+                small.append(a_)
+                ctx.count("node-count:library-default-or-at-most-degree", 4)
             for args in [G.sample_args(rng, name, cb, tier) for _ in range(reps)] + G.corner_args(name, cb) + small:
                 o = {}
                 for eb in (True, False):
